@@ -243,6 +243,25 @@ def expectedOrderSites : List (String × String × String × String) :=
 cloud, `$1` = the expected size): the input is refused iff its number of points *differs* from the expected one -/
 def expectedValidateGuard : List String := ["($0.n_points) != $1"]
 
+/-- the index-based labelling functions the property quantifies over ("all 33 predefined index-based labellers"), by the
+name `menpo.landmark` exports them under: a labeller that disappears from the module (or a new one) breaks
+`GenProps.labellers_pinned` instead of silently leaving (entering) the quantifier -/
+def expectedLabellerNames : List String :=
+  ["car_streetscene_20_to_car_streetscene_view_0_8", "car_streetscene_20_to_car_streetscene_view_1_14",
+   "car_streetscene_20_to_car_streetscene_view_2_10", "car_streetscene_20_to_car_streetscene_view_3_14",
+   "car_streetscene_20_to_car_streetscene_view_4_14", "car_streetscene_20_to_car_streetscene_view_5_10",
+   "car_streetscene_20_to_car_streetscene_view_6_14", "car_streetscene_20_to_car_streetscene_view_7_8",
+   "eye_ibug_close_17_to_eye_ibug_close_17", "eye_ibug_close_17_to_eye_ibug_close_17_trimesh",
+   "eye_ibug_open_38_to_eye_ibug_open_38", "eye_ibug_open_38_to_eye_ibug_open_38_trimesh",
+   "face_bu3dfe_83_to_face_bu3dfe_83", "face_ibug_49_to_face_ibug_49", "face_ibug_68_mirrored_to_face_ibug_68",
+   "face_ibug_68_to_face_ibug_49", "face_ibug_68_to_face_ibug_49_trimesh", "face_ibug_68_to_face_ibug_51",
+   "face_ibug_68_to_face_ibug_51_trimesh", "face_ibug_68_to_face_ibug_65", "face_ibug_68_to_face_ibug_66",
+   "face_ibug_68_to_face_ibug_66_trimesh", "face_ibug_68_to_face_ibug_68",
+   "face_ibug_68_to_face_ibug_68_trimesh", "face_imm_58_to_face_imm_58", "face_lfpw_29_to_face_lfpw_29",
+   "hand_ibug_39_to_hand_ibug_39", "pose_flic_11_to_pose_flic_11", "pose_human36M_32_to_pose_human36M_17",
+   "pose_human36M_32_to_pose_human36M_32", "pose_lsp_14_to_pose_lsp_14", "pose_stickmen_12_to_pose_stickmen_12",
+   "tongue_ibug_19_to_tongue_ibug_19"]
+
 /-- what one labelling function (or a helper it delegates to) does with the point cloud it is handed -/
 structure LabScan where
   name : String
